@@ -310,10 +310,26 @@ class StmtMixin:
                 s2 = s.copy()
                 s.assume(tv)
                 self.path_counter += 1
-                yield from self.exec_block(node.body, s)
+                if self.feasible(s):
+                    yield from self.exec_block(node.body, s)
                 s2.assume(z3.Not(tv))
                 self.path_counter += 1
-                yield from self.exec_block(node.orelse, s2)
+                if self.feasible(s2):
+                    yield from self.exec_block(node.orelse, s2)
+
+    def feasible(self, st: State) -> bool:
+        """path pruning: a branch whose path condition is unsatisfiable is dropped (sound: only
+        `unsat` prunes; unknown / timeout keeps the path)"""
+        sol = z3.Solver()
+        sol.set("timeout", 250)
+        for f in self.global_facts:
+            sol.add(f)
+        for f in st.pc:
+            sol.add(f)
+        try:
+            return sol.check() != z3.unsat
+        except z3.Z3Exception:
+            return True
 
     # ------------------------------------------------------------------ try / with
     def st_Try(self, node, st):
